@@ -199,6 +199,32 @@ pub fn kernel_ipv4_addrs() -> Result<Vec<Ipv4Addr>, String> {
     Ok(out)
 }
 
+/// The same for IPv6: (address, prefix length) pairs, link-local included, tentative ones left out.
+pub fn kernel_ipv6_addrs() -> Result<Vec<(Ipv6Addr, u8)>, String> {
+    let o = std::process::Command::new("ip").args(["-6", "-o", "addr", "show", "dev", SRV_IF]).output().map_err(|e| format!("ip addr show: {e}"))?;
+    if !o.status.success() {
+        return Err(format!("ip addr show: {}", String::from_utf8_lossy(&o.stderr).trim()));
+    }
+    let mut out = vec![];
+    for line in String::from_utf8_lossy(&o.stdout).lines() {
+        if line.contains("tentative") || line.contains("dadfailed") {
+            continue;
+        }
+        let mut it = line.split_whitespace();
+        while let Some(w) = it.next() {
+            if w == "inet6" {
+                if let Some(x) = it.next() {
+                    let mut p = x.split('/');
+                    if let (Some(a), Some(l)) = (p.next().and_then(|a| a.parse::<Ipv6Addr>().ok()), p.next().and_then(|l| l.parse::<u8>().ok())) {
+                        out.push((a, l));
+                    }
+                }
+            }
+        }
+    }
+    Ok(out)
+}
+
 /// IPv4 address changes at run time (announced inside the `ip` command's own syscall; one pass
 /// through the rtnl lock afterwards all the same).
 pub fn addr4_add(addr: Ipv4Addr, len: u8) -> Result<(), String> {
